@@ -1,4 +1,59 @@
-(* placeholder until the proofs are integrated *)
-From LLTD Require Import BufProofs.
-Theorem C03_placeholder : True. Proof. exact I. Qed.
-Print Assumptions C03_placeholder.
+(* C03: an accepted Discover is answered by exactly one correct Hello.
+   Statements only: each theorem restates the full type of a lemma proved in coq/proofs and is closed by
+   `exact`; Print Assumptions beneath.  Regenerate with bin/genprops.py after a lemma changes. *)
+From LLTD Require Import BlockFun BlockNominal PropsMapper.
+
+Theorem C03_accepted_discover_one_hello :
+  forall (ctx : N) (c : pcfg) (g : gcfg) (mtu : N) (s : ist) (buf : list N) (h : hdr),
+  parse_hdr buf = Some h ->
+  is_discover h = true ->
+  matches s h = true ->
+  snd (f_step ctx c g mtu s buf) =
+  (if (h_tos h =? tos_discovery)%N then [Sleep 10] else []) ++ [tx ctx (hello_frame c g h (h_w0 h))].
+Proof. exact C03_one_hello. Qed.
+Print Assumptions C03_accepted_discover_one_hello.
+
+Theorem C03_hello_fields :
+  forall (c : pcfg) (g : gcfg) (h : hdr) (gen : N),
+  hello_frame c g h gen =
+  header_bytes (own c) bcast (own c) bcast 0 opcode_hello (h_tos h) ++
+  be16 gen ++ mac_bytes (h_rsrc h) ++ mac_bytes (h_esrc h) ++ concat (hello_tlvs c g).
+Proof. exact C03_hello_shape. Qed.
+Print Assumptions C03_hello_fields.
+
+Theorem C03_generation_of_that_discover :
+  forall (ctx : N) (c : pcfg) (g : gcfg) (mtu : N) (s : ist) (buf : list N) (h : hdr),
+  parse_hdr buf = Some h ->
+  is_discover h = true ->
+  matches s h = true -> get_gen (fst (f_step ctx c g mtu s buf)) (h_tos h) = h_w0 h.
+Proof. exact C03_generation_recorded. Qed.
+Print Assumptions C03_generation_of_that_discover.
+
+Theorem C03_refused_discover_silence :
+  forall (ctx : N) (c : pcfg) (g : gcfg) (mtu : N) (s : ist) (buf : list N) (h : hdr),
+  parse_hdr buf = Some h ->
+  is_discover h = true -> matches s h = false -> f_step ctx c g mtu s buf = (s, []).
+Proof. exact C03_rejected. Qed.
+Print Assumptions C03_refused_discover_silence.
+
+Theorem C03_hellos_heard_change_nothing :
+  forall (ctx : N) (c : pcfg) (g : gcfg) (mtu : N) (s : ist) (buf : list N) (h : hdr),
+  parse_hdr buf = Some h -> h_opc h = opcode_hello -> f_step ctx c g mtu s buf = (s, []).
+Proof. exact C03_hello_heard. Qed.
+Print Assumptions C03_hellos_heard_change_nothing.
+
+Theorem C03_buffer_level_model_refines :
+  forall (junk ctx : N) (c : pcfg) (g : gcfg) (mtu : N),
+  c_mtu c = Some mtu ->
+  (576 <= mtu)%N ->
+  (mtu <= 9216)%N ->
+  (mtu <= c_rxsize c)%N ->
+  forall (s : ist) (buf : list N) (w : world) (bl : nat) (bb : N),
+  length buf = o (c_rxsize c) ->
+  ledger_frame bl bb s w ->
+  exists w' : world,
+  parse_frame_st no_fail no_fail junk ctx c g s buf w = Ok (fst (f_step ctx c g mtu s buf)) w' /\
+  w_trace w' = rev (snd (f_step ctx c g mtu s buf)) ++ w_trace w /\
+  ledger_frame bl bb (fst (f_step ctx c g mtu s buf)) w' /\ w_now w' = w_now w.
+Proof. exact step_nominal. Qed.
+Print Assumptions C03_buffer_level_model_refines.
